@@ -5,6 +5,7 @@
 package uasc
 
 import (
+	"bytes"
 	"context"
 	"crypto/rand"
 	"crypto/rsa"
@@ -533,6 +534,19 @@ func (s *SecureChannel) readChunk() (*MessageChunk, error) {
 			return nil, errors.Errorf("sechan: invalid state. openingInstance is nil.")
 		}
 
+		// The peer of a channel does not change. A client talks to the
+		// server whose certificate it has been configured with and a
+		// server renews a token only for the certificate which opened
+		// the channel. Otherwise anybody who can write to the connection
+		// could take over the channel with a certificate of their own.
+		if m.SecurityPolicyURI != ua.SecurityPolicyURINone && len(s.cfg.RemoteCertificate) > 0 {
+			if s.kind == client || s.openingInstance.state == channelActive {
+				if !sameLeafCertificate(m.AsymmetricSecurityHeader.SenderCertificate, s.cfg.RemoteCertificate) {
+					return nil, ua.StatusBadSecurityChecksFailed
+				}
+			}
+		}
+
 		s.cfg.SecurityPolicyURI = m.SecurityPolicyURI
 		if m.SecurityPolicyURI != ua.SecurityPolicyURINone {
 			s.cfg.RemoteCertificate = m.AsymmetricSecurityHeader.SenderCertificate
@@ -593,6 +607,18 @@ func (s *SecureChannel) readChunk() (*MessageChunk, error) {
 	}
 
 	return m, nil
+}
+
+// sameLeafCertificate returns true if both DER encoded certificates, or the
+// first certificates of both chains, are the same.
+func sameLeafCertificate(a, b []byte) bool {
+	if len(a) == 0 || len(b) == 0 {
+		return false
+	}
+	if len(a) > len(b) {
+		a, b = b, a
+	}
+	return bytes.HasPrefix(b, a)
 }
 
 // checkSequenceNumber rejects a chunk which does not continue the sequence of
